@@ -338,8 +338,58 @@ var c02RareNonces = [][5]string{
 	{"x2two", "0147", "d062045840b1f4b0a64d6e6c5bc582079fc0af8c366eba632b35f5e217385b", "5032f04533c064a41a7616cbb528b168c79a247d46f1c3667e1a2f5921aca9a4", "96fd3b9dac4fde0ad1698ca35acbc306fcdac0713fe4e0ce3afd11285d1cd0fb7eb0e058949f075d6e341855f4120cd918539d596a679e621c55dbce9b2c9657aa5f93d0e346362b5d26683b1978f814"},
 }
 
+// c02SmallXCipher: a valid raw C1C3C2 ciphertext for the key d whose C1 has an x coordinate below 2^200 (made with
+// the private key: C1 is chosen, the shared point is [d]C1), so that x + p still fits 32 bytes
+func c02SmallXCipher(r *rng, d *big.Int, msg []byte) (ct []byte, x, y *big.Int) {
+	c := sm2.P256Sm2()
+	P, A, B := c.Params().P, new(big.Int).Sub(c.Params().P, big.NewInt(3)), c.Params().B
+	for {
+		x = new(big.Int).SetBytes(r.bytes(1 + r.intn(24)))
+		rhs := new(big.Int).Exp(x, big.NewInt(3), P)
+		rhs.Add(rhs, new(big.Int).Mul(A, x)).Add(rhs, B).Mod(rhs, P)
+		y = new(big.Int).ModSqrt(rhs, P)
+		if y == nil || x.Sign() == 0 {
+			continue
+		}
+		x2, y2 := c.ScalarMult(x, y, d.Bytes())
+		if x2.Sign() == 0 && y2.Sign() == 0 {
+			continue
+		}
+		z := append(h32b(x2), h32b(y2)...)
+		var t []byte
+		for ctr := uint32(1); len(t) < len(msg); ctr++ {
+			h := sm3.Sm3Sum(append(append([]byte{}, z...), byte(ctr>>24), byte(ctr>>16), byte(ctr>>8), byte(ctr)))
+			t = append(t, h...)
+		}
+		c2 := make([]byte, len(msg))
+		zero := true
+		for i := range msg {
+			c2[i] = msg[i] ^ t[i]
+			if t[i] != 0 {
+				zero = false
+			}
+		}
+		if zero {
+			continue
+		}
+		c3 := sm3.Sm3Sum(append(append(append([]byte{}, h32b(x2)...), msg...), h32b(y2)...))
+		ct = append(append(append(append([]byte{0x04}, h32b(x)...), h32b(y)...), c3...), c2...)
+		return ct, x, y
+	}
+}
+
 func genC02(r *rng, tier string, emit func(string)) {
 	genSm2obj(r, tier, emit)
+	// C1 with a coordinate that is not a field element: (x + p, y) for a point (x, y) of the curve with small x
+	for i := 0; i < 4; i++ {
+		k := r.sm2key()
+		msg := r.bytes(1 + r.intn(40))
+		ct, x, _ := c02SmallXCipher(r, k.d, msg)
+		emit(fmt.Sprintf("sm2dec %s c1c3c2 %s", bhex(k.d), hx(ct))) // genuine: decrypts
+		f := append([]byte{}, ct...)
+		copy(f[1:33], h32b(new(big.Int).Add(x, sm2P)))
+		emit(fmt.Sprintf("sm2dec %s c1c3c2 %s", bhex(k.d), hx(f)))
+	}
 	for _, row := range c02RareNonces {
 		d, _ := new(big.Int).SetString(row[1], 16)
 		x, _ := new(big.Int).SetString(row[2], 16)
@@ -451,6 +501,17 @@ func genC02(r *rng, tier string, emit func(string)) {
 				re(sc.X, sc.Y, append([]byte{0}, sc.H...), sc.C)
 				re(sc.X, sc.Y, sc.H, append(append([]byte{}, sc.C...), 0))
 				re(big.NewInt(1), big.NewInt(2), sc.H, sc.C)
+				// (-x, y), (x, -y), (-x, -y): no points of the curve, although their magnitudes are
+				re(new(big.Int).Neg(sc.X), sc.Y, sc.H, sc.C)
+				re(sc.X, new(big.Int).Neg(sc.Y), sc.H, sc.C)
+				re(new(big.Int).Neg(sc.X), new(big.Int).Neg(sc.Y), sc.H, sc.C)
+				// the same bytes re-split: a 33-byte "x" that borrows the first byte of y, and so on down to C2
+				raw := append(append(append(append([]byte{}, h32b(sc.X)...), h32b(sc.Y)...), sc.H...), sc.C...)
+				if len(raw) > 98 {
+					re(new(big.Int).SetBytes(raw[:33]), new(big.Int).SetBytes(raw[33:65]), raw[65:97], raw[97:])
+					re(sc.X, sc.Y, raw[64:95], raw[95:])
+					re(sc.X, sc.Y, raw[64:97], raw[97:])
+				}
 			}
 		}
 		// nonces for which a coordinate of the shared point [k]P has leading zero bytes (about 1 in 64): the
@@ -588,6 +649,19 @@ func genC13(r *rng, tier string, emit func(string)) {
 			emit(fmt.Sprintf("sm2kex %d %s %s %s %s %s %s", r.pick([]int{16, 32, 48}), id(), id(), bhex(ds[0]), bhex(ds[1]), bhex(ds[2]), bhex(ds[3])))
 		}
 	}
+	// one-byte keys that come out as 00 (once in 256): GM/T 0003.3 has no "all-zero key" step, both parties get K = 00
+	{
+		a, b, ra := r.sm2key(), r.sm2key(), r.sm2key()
+		found := 0
+		for tries := 0; tries < 4000 && found < 2; tries++ {
+			rb := r.sm2key()
+			k, _, _, err := sm2.KeyExchangeA(1, []byte("A"), []byte("B"), privFromD(a.d), pubFromXY(b.x, b.y), privFromD(ra.d), pubFromXY(rb.x, rb.y))
+			if err != nil || (len(k) == 1 && k[0] == 0) {
+				emit(fmt.Sprintf("sm2kex 1 %s %s %s %s %s %s", hx([]byte("A")), hx([]byte("B")), bhex(a.d), bhex(b.d), bhex(ra.d), bhex(rb.d)))
+				found++
+			}
+		}
+	}
 	for i := 0; i < n; i++ {
 		a, b, ra, rb := r.sm2key(), r.sm2key(), r.sm2key(), r.sm2key()
 		klen := r.pick([]int{1, 16, 32, 33, 48, 64, 100, 1024})
@@ -601,6 +675,12 @@ func genC13(r *rng, tier string, emit func(string)) {
 		switch i % 4 {
 		case 0:
 			ex, ey = big.NewInt(1), big.NewInt(2)
+			if i%8 == 4 { // a point of the curve with p added to a coordinate: not a pair of field elements
+				ex, ey = new(big.Int).Add(rb.x, sm2P), rb.y
+			}
+			if i%16 == 8 {
+				ex, ey = rb.x, new(big.Int).Add(rb.y, sm2P)
+			}
 		case 1:
 			ex, ey = new(big.Int), new(big.Int)
 		case 2:
